@@ -453,6 +453,98 @@ def run(P, rep, tier):
                    ('%s publishes a count (%s) but is reset to %s' % (m.split('.')[1], txt, sorted({x[2] for x in rl}))))
     rep.floor('C09.RESET', 4)
 
+    # ---------------- BARRIERRESET: the worker loop ends every frame in a sequence of all-threads rendezvous (each thread increments an
+    # arrival counter, then polls it until it equals the thread count).  A thread may poll long after the count was reached, so a
+    # counter may be set back to 0 only when every thread has demonstrably left its poll, i.e. has arrived at a *later* rendezvous.
+    # For the counter of the last rendezvous of the loop body the only later one is the first rendezvous of the next frame: its reset
+    # must be dominated, in the resetting function, by a call that takes part in a rendezvous on another counter.
+    def _arrivals(g):
+        """members incremented and polled (through a local alias) in g itself"""
+        inc = set()
+        for ev in g.events(('st',)):
+            e = ev['e']
+            if e[0] == 'u' and e[1] in ('x++', '++x', '++'):
+                t = strip(e[2])
+                if t is not None and t[0] == 'm':
+                    inc.add(t[1])
+            elif e[0] == 'a' and e[1] == '+=':
+                t = strip(e[2])
+                if t is not None and t[0] == 'm':
+                    inc.add(t[1])
+        polled = set()
+        for par, kind, cond, line in g.ctl:
+            if kind != 'while' or cond is None:
+                continue
+            for x in subexprs(cond):
+                if x[0] == 'u' and x[1] == '*':
+                    m = _member_of(g, x[2])
+                    if m:
+                        polled.add(m)
+                elif x[0] == 'm':
+                    polled.add(x[1])
+        return inc & polled
+    arr_of = {}
+    for g in P.fns:
+        if g.lib == 'Decoder' and not g.nocfg:
+            a = _arrivals(g)
+            if a:
+                arr_of[g] = a
+    if len(arr_of) < 3:
+        raise AnalysisBroken('only %d decoder functions with an arrival-counter rendezvous found' % len(arr_of))
+
+    def _trans_arrivals(g):
+        out = set()
+        for h in P.reachable_from([g]):
+            out |= arr_of.get(h, set())
+        return out
+    # the worker loop: a thread entry whose loop body calls the stage functions in order
+    stage_of = {}
+    for g in P.fns:
+        if g.lib != 'Decoder' or g.nocfg:
+            continue
+        seq = []
+        for ev, n in g.calls():
+            if n and any(k in ('while', 'for') for k, c, l in g.ctl_chain(ev)):
+                h = P.fn(n, required=False)
+                if h is not None:
+                    ta = _trans_arrivals(h)
+                    if ta:
+                        seq.append((ev['l'], n, ta))
+        if len({n for l, n, ta in seq}) >= 3:
+            for i, (l, n, ta) in enumerate(sorted(seq)):
+                for c in ta:
+                    stage_of.setdefault(c, (i, n, g.name))
+    if not stage_of:
+        raise AnalysisBroken('decoder worker loop with at least three rendezvous stages not found')
+    last = max(v[0] for v in stage_of.values())
+    nbr = 0
+    for g in P.fns:
+        if g.lib != 'Decoder' or g.nocfg:
+            continue
+        for ev in g.events(('st',)):
+            e = ev['e']
+            if e[0] != 'a' or e[1] != '=':
+                continue
+            t = strip(e[2])
+            r = strip(e[3])
+            if t is None or t[0] != 'm' or t[1] not in stage_of or r is None or r[0] != 'l' or r[1] != 0:
+                continue
+            # allocation-time initialisation (no rendezvous is reachable from the function at all) is not a per-frame reset
+            if not any(_trans_arrivals(h) for cv, n in g.calls() if n for h in [P.fn(n, required=False)] if h is not None):
+                continue
+            nbr += 1
+            idx, stage_fn, loop_fn = stage_of[t[1]]
+            if idx != last:
+                rep.ob('C09.BARRIERRESET', '%s/%s@%d' % (g.name, t[1], ev['l']), True, g.loc(ev),
+                       '%s belongs to stage %s, which is followed by another rendezvous in the same iteration of %s: every thread has left its poll before the next frame starts' % (t[1].split('.')[1], stage_fn, loop_fn))
+                continue
+            doms = [n for cv, n in g.calls() if n and g.ev_dominates(cv, ev) and
+                    any(c != t[1] for h in [P.fn(n, required=False)] if h is not None for c in _trans_arrivals(h))]
+            rep.ob('C09.BARRIERRESET', '%s/%s@%d' % (g.name, t[1], ev['l']), bool(doms), g.loc(ev),
+                   ('%s (last rendezvous of %s) is set back after %s, a rendezvous of the new frame that no thread reaches before leaving its poll' % (t[1].split('.')[1], loop_fn, doms[0])) if doms else
+                   ('%s is the arrival counter of the last rendezvous of the worker loop (%s in %s) and %s sets it back to 0 without having taken part in a rendezvous of the new frame first: a thread that has incremented it but not yet polled the final value reads 0, polls forever, and the frame (and the teardown) never completes' % (t[1].split('.')[1], stage_fn, loop_fn, g.name)))
+    rep.floor('C09.BARRIERRESET', 3)
+
     # ---------------- SEM
     waits, posts = {}, {}
     for f in dec:
